@@ -126,7 +126,19 @@ class Gen:
         if r < 0.63:
             return self.add(dict(name=self.name(), kind="accum", args=self.pick(1), id=self.nid()))
         if r < 0.68:
-            return self.add(dict(name=self.name(), kind="sample", args=self.pick(2), id=self.nid()))
+            if rng.random() < 0.5:
+                args = self.pick(2)
+                if rng.random() < 0.4:
+                    args[1] = "~" + args[1]           # redundant mark on the compile-time passive input
+                return self.add(dict(name=self.name(), kind="sample", args=args, id=self.nid()))
+            args = self.pick(3)
+            m = rng.random()
+            if m < 0.45:
+                args[1] = "~" + args[1]               # redundant mark on the compile-time passive input
+            if 0.3 < m < 0.6:
+                j = rng.choice((0, 2))
+                args[j] = "~" + args[j]               # and/or one of the two active neighbours made passive
+            return self.add(dict(name=self.name(), kind="samplemid", args=args, id=self.nid()))
         if r < 0.74 and allow.get("timer1", True):
             i = self.nid()
             self.tscripts[i] = gen_tscript(rng, in_start=rng.random() < 0.5)
